@@ -1367,8 +1367,15 @@ func (P *Prog) checkParamPresence(r *Result) {
 		if m == nil {
 			return false
 		}
-		_, f := loadOfField(cv(m))
-		return f != nil && sameField(f, paramsF)
+		if _, f := loadOfField(cv(m)); f != nil && sameField(f, paramsF) {
+			return true
+		}
+		// the params handed to a helper of the formatter (`fillPlaceholders(msg, e.Params)`): a parameter of the
+		// params' own map type
+		if prm, isP := cv(m).(*ssa.Parameter); isP && types.Identical(prm.Type().Underlying(), paramsF.Type().Underlying()) {
+			return true
+		}
+		return false
 	}
 	n := 0
 	for _, fn := range P.Funcs {
